@@ -309,3 +309,41 @@ def parent_view(F, view):
         return None
     c = [F.view(k) for k, f in F.fns.items() if f['path'] == p]
     return c[0] if c else None
+
+
+def self_fields_read(F, view, depth=2, type_prefix=None, _seen=None):
+    """Fields `self.<f>` mentioned (read or written) in a body and, up to `depth`, in the local
+    methods/closures it calls with `self`."""
+    _seen = _seen if _seen is not None else set()
+    if view.key in _seen:
+        return set()
+    _seen.add(view.key)
+    out = set()
+
+    def scan(e):
+        for x in subexprs(e):
+            f = self_field(x) if x[0] == 'var' else None
+            if f:
+                out.add(f)
+    for (i, j, s) in view.stmts():
+        if s['k'] == 'assign' and not is_log_mac(s.get('mac', '')):
+            scan(view.rvalue_expr(s['rv'], i))
+            if s['lhs']['p']:
+                scan(view.place_expr(s['lhs']))
+    for cs in view.calls(skip_log=True):
+        for i in range(len(cs.args)):
+            scan(cs.arg(i))
+    for i in view.live_blocks():
+        t = view.blocks[i]['term']
+        if t['k'] == 'switch' and not is_log_mac(t.get('mac', '')):
+            scan(view.operand_expr(t['op'], i))
+    if depth > 0:
+        for cs, cv in F.callees_of(view):
+            if cs is not None and is_log_mac(cs.mac):
+                continue
+            if type_prefix and not (is_method_of(cv, type_prefix)):
+                continue
+            if cv.path.split('::')[-1] in ('log_state', 'log_debug', 'log_trace', 'fmt'):
+                continue
+            out |= self_fields_read(F, cv, depth - 1, type_prefix, _seen)
+    return out
